@@ -34,3 +34,35 @@ func postabWalker(visit func(hcl.Range)) *postab.Walker {
 }
 
 var ctyNil = cty.NilType
+
+// structuralOffsets lists, per kind of written element, one byte offset inside
+// each occurrence in a native file: block types and labels (top level and
+// nested apart), attribute names, first bytes of attribute values.
+func structuralOffsets(f *hcl.File) map[string][]int {
+	out := map[string][]int{}
+	body, ok := f.Body.(*hclsyntax.Body)
+	if !ok {
+		return out
+	}
+	var walk func(b *hclsyntax.Body, level string)
+	walk = func(b *hclsyntax.Body, level string) {
+		for _, a := range b.Attributes {
+			out[level+"attr-name"] = append(out[level+"attr-name"], a.NameRange.Start.Byte+(a.NameRange.End.Byte-a.NameRange.Start.Byte)/2)
+			out[level+"attr-value"] = append(out[level+"attr-value"], a.Expr.Range().Start.Byte)
+		}
+		for _, bl := range b.Blocks {
+			out[level+"block-type"] = append(out[level+"block-type"], bl.TypeRange.Start.Byte+1)
+			for _, lr := range bl.LabelRanges {
+				out[level+"label"] = append(out[level+"label"], lr.Start.Byte+(lr.End.Byte-lr.Start.Byte)/2)
+			}
+			if bl.Body != nil {
+				walk(bl.Body, "nested-")
+			}
+		}
+	}
+	walk(body, "top-")
+	for k := range out {
+		sort.Ints(out[k])
+	}
+	return out
+}
